@@ -492,6 +492,9 @@ func (app *ShutterApp) deliverBlockSeen(
 	msg *shmsg.BlockSeen,
 	sender common.Address,
 ) abcitypes.ResponseDeliverTx {
+	if !app.isKeyper(sender) {
+		return notAKeyper(sender)
+	}
 	if msg.BlockNumber > app.BlocksSeen[sender] {
 		app.BlocksSeen[sender] = msg.BlockNumber
 	}
